@@ -132,7 +132,7 @@ func (bs *HashedBlockstore) AllKeysChan(ctx context.Context) (<-chan cid.Cid, er
 // HashOnRead specifies if every read block should be
 // rehashed to make sure it matches its CID.
 func (bs *HashedBlockstore) HashOnRead(enabled bool) {
-	bs.hashOnRead = true
+	bs.hashOnRead = enabled
 }
 
 func (bs *HashedBlockstore) Start() {
